@@ -7,13 +7,66 @@ use serde_json::{json, Map, Value};
 
 type R = Response<Map<String, Value>>;
 
+/// The same JSON value written with every string character as a \uXXXX escape (an equivalent
+/// JSON text: parsers must copy such strings instead of borrowing them from the input).
+fn escaped_text(v: &Value, out: &mut String) {
+    fn esc(s: &str, out: &mut String) {
+        out.push('"');
+        for u in s.encode_utf16() {
+            out.push_str(&format!("\\u{:04x}", u));
+        }
+        out.push('"');
+    }
+    match v {
+        Value::String(s) => esc(s, out),
+        Value::Array(a) => {
+            out.push('[');
+            for (i, x) in a.iter().enumerate() {
+                if i > 0 {
+                    out.push(',');
+                }
+                escaped_text(x, out);
+            }
+            out.push(']');
+        }
+        Value::Object(m) => {
+            out.push('{');
+            for (i, (k, x)) in m.iter().enumerate() {
+                if i > 0 {
+                    out.push(',');
+                }
+                esc(k, out);
+                out.push(':');
+                escaped_text(x, out);
+            }
+            out.push('}');
+        }
+        other => out.push_str(&other.to_string()),
+    }
+}
+
 fn envelope_one(body: &Value) -> Value {
     let parsed: Result<R, _> = serde_json::from_value(body.clone());
     let text = body.to_string();
     let parsed_str: Result<R, _> = serde_json::from_str(&text);
+    // two more equivalent routes: a reader (no borrowed strings) and a fully escaped text
+    let parsed_reader: Result<R, _> = serde_json::from_reader(text.as_bytes());
+    let mut etext = String::new();
+    escaped_text(body, &mut etext);
+    let parsed_escaped: Result<R, _> = serde_json::from_str(&etext);
+    if let (Ok(_), Ok(_)) = (&parsed, &parsed_str) {
+        if let Err(e) = &parsed_reader {
+            return json!({"parse": "err", "msg": e.to_string(), "route": "from_reader"});
+        }
+        if let Err(e) = &parsed_escaped {
+            return json!({"parse": "err", "msg": e.to_string(), "route": "from_str(escaped text)"});
+        }
+    }
     match (parsed, parsed_str) {
         (Ok(r), Ok(rs)) => {
-            let same_routes = r == rs;
+            let same_routes = r == rs
+                && matches!(&parsed_reader, Ok(x) if *x == r)
+                && matches!(&parsed_escaped, Ok(x) if *x == r);
             let reser = serde_json::to_value(&r).unwrap_or(Value::Null);
             let back: Result<R, _> = serde_json::from_value(reser.clone());
             let roundtrip = matches!(&back, Ok(b) if *b == r);
